@@ -646,7 +646,7 @@ func checkGenerated(c *Ctx, r *Rng, g *gdict, pkg string, tag string) {
 
 func init() {
 	props["C17"] = func(c *Ctx) {
-		c.Res.Rule = "dictionaries built as parsed structures: (a) mostly-valid (every supported type x the flag combinations the templates implement, distinct numbers, 0..2 vendors, integer VALUEs, ignore lists naming top-level and vendor attributes, external references) and (b) wild (unsupported types, flags on the wrong types, numbers above 255 and dotted, repeated numbers, names that collide after normalisation, keyword-like and non-ASCII names, VALUE numbers that repeat or overflow, vendors with format 2, unknown VALUE attributes), plus (c) the 32 shipped dictionaries with their go:generate options. For each: Generate must not panic; an error must be the one the Coq decision model predicts; on success the output must be identical on a second run, a gofmt fixed point, type-check (go/types, source importer) against the working tree's radius packages, list exactly the declarations the model predicts in the same order with the signatures of the documented API shape, and be byte-identical for a random permutation of all declarations; 25 seeded dictionaries are generated here after their upper- and lower-cased variants (and after everything else this run generated) and in a fresh child process, and the outputs compared (history independence). non-trivial = accepted dictionary with at least one attribute"
+		c.Res.Rule = "dictionaries built as parsed structures: (a) mostly-valid (every supported type x the flag combinations the templates implement, distinct numbers, 0..2 vendors, integer VALUEs, ignore lists naming top-level and vendor attributes, external references) and (b) wild (unsupported types, flags on the wrong types, numbers above 255 and dotted, repeated numbers, names that collide after normalisation, keyword-like and non-ASCII names, VALUE numbers that repeat or overflow, vendors with format 2, unknown VALUE attributes), (b') pairs of vendors whose names normalise to one identifier, plus (c) the 32 shipped dictionaries with their go:generate options. For each: Generate must not panic; an error must be the one the Coq decision model predicts; on success the output must be identical on a second run, a gofmt fixed point, type-check (go/types, source importer) against the working tree's radius packages, list exactly the declarations the model predicts in the same order with the signatures of the documented API shape, and be byte-identical for a random permutation of all declarations; 25 seeded dictionaries are generated here after their upper- and lower-cased variants (and after everything else this run generated) and in a fresh child process, and the outputs compared (history independence). non-trivial = accepted dictionary with at least one attribute"
 		r := c.Rng.Fork()
 		// (c) shipped dictionaries
 		for _, s := range findSpecs(c.Repo) {
@@ -668,9 +668,31 @@ func init() {
 			}
 			checkGenerated(c, r, g, "zzverif", tag)
 		}
+		// two vendors whose names normalise to one identifier (Foo-Id / Foo-ID, Acme.X / Acme-X): their helpers would
+		// be the same declarations, so the dictionary must be refused
+		for i := 0; i < c.N(40, 400); i++ {
+			g := genDict(r, false)
+			for len(g.d.Vendors) < 2 {
+				g.d.Vendors = append(g.d.Vendors, &dictionary.Vendor{Name: fmt.Sprintf("Twin-Id-%d", r.Intn(50)), Number: 40001 + len(g.d.Vendors)})
+			}
+			a, b := g.d.Vendors[0], g.d.Vendors[len(g.d.Vendors)-1]
+			base := fmt.Sprintf("Acme-Id-%d", r.Intn(90))
+			a.Name = base
+			switch r.Intn(4) {
+			case 0:
+				b.Name = strings.Replace(base, "-Id-", "-ID-", 1)
+			case 1:
+				b.Name = strings.Replace(base, "-", ".", 1)
+			case 2:
+				b.Name = strings.Replace(base, "Acme-", "Acme--", 1)
+			default:
+				b.Name = strings.ToLower(base[:1]) + base[1:] // identifier() titles each field: acme -> Acme
+			}
+			checkGenerated(c, r, g, "zzverif", "vendor-twins")
+		}
 		c.Flush()
 		checkHistoryIndependence(c)
-		c.RequireTags("shipped/accepted", "valid/accepted", "wild/accepted", "wild/refused", "valid/permuted", "shipped/permuted", "history")
+		c.RequireTags("vendor-twins/refused", "shipped/accepted", "valid/accepted", "wild/accepted", "wild/refused", "valid/permuted", "shipped/permuted", "history")
 	}
 }
 
